@@ -49,8 +49,9 @@ type reqScript struct {
 }
 
 type caseScript struct {
-	Cfg  limCfg      `json:"config"`
-	Reqs []reqScript `json:"requests"`
+	Aligned bool        `json:"aligned_mode,omitempty"`
+	Cfg     limCfg      `json:"config"`
+	Reqs    []reqScript `json:"requests"`
 }
 
 // isHeavy restates the documented classification (resource_limiter.go, selectBucket comment and
@@ -248,10 +249,11 @@ func runScript(cs caseScript, c *ev.Collector) outcome {
 		ok, s := quiet()
 		if ok {
 			time.Sleep(3 * time.Millisecond) // the worker may hold a dequeued request between two observations
-			if ok2, _ := quiet(); ok2 {
+			if ok2, s2 := quiet(); ok2 {
 				break
+			} else {
+				s = s2
 			}
-			continue
 		}
 		state = s
 		if time.Now().After(deadline) {
@@ -318,6 +320,8 @@ func genCase(t *rapid.T) caseScript {
 		NormalMax:      int64(1 + uni(t, 5, "normalmax")),
 		QueueTimeoutUs: pick(t, []int{300, 2000, 5000, 10000, 20000, 40000, 80000}, "queuetimeout"),
 	}
+	aligned := uni(t, 4, "aligned") == 0
+	cs.Aligned = aligned
 	n := 20 + uni(t, 101, "nreq")
 	if uni(t, 10, "many") == 0 {
 		n = 120 + uni(t, 81, "nreq2")
@@ -362,6 +366,20 @@ func genCase(t *rapid.T) caseScript {
 		r.RetErr = uni(t, 3, "reterr") == 0
 		cs.Reqs = append(cs.Reqs, r)
 	}
+	if aligned {
+		// aligned mode: everything happens on a grid of one tick, so that queue deadlines and caller
+		// cancellations coincide with the moments permits are handed over (races around dequeue)
+		tick := pick(t, []int{300, 1000, 2000}, "tick")
+		cs.Cfg.QueueTimeoutUs = tick * (1 + uni(t, 4, "timeoutticks"))
+		for i := range cs.Reqs {
+			r := &cs.Reqs[i]
+			r.ArriveUs = tick * uni(t, 4, "arrivetick")
+			r.ExecUs = tick * (1 + uni(t, 2, "exectick"))
+			if r.CancelUs >= 0 {
+				r.CancelUs = tick * (1 + uni(t, 4, "canceltick"))
+			}
+		}
+	}
 	return cs
 }
 
@@ -394,10 +412,14 @@ func saveScript(cs caseScript, out outcome) string {
 
 func report(t interface{ Fatalf(string, ...any) }, cs caseScript, out outcome) {
 	sort.Strings(out.violations)
+	if len(out.violations) > 12 {
+		out.violations = append(out.violations[:12], fmt.Sprintf("... and %d more", len(out.violations)-12))
+	}
 	b, _ := json.Marshal(cs)
 	p := saveScript(cs, out)
-	t.Fatalf("%s", ev.Violation("C41", "%s\n--- script (also written to %s; schedule dependent: ./check C41 --replay <that file> re-runs it up to 50 times) ---\n%s\n--- observed ledger ---\n%s",
-		strings.Join(out.violations, "\n"), p, string(b), out.log))
+	v := strings.Join(out.violations, "\n")
+	t.Fatalf("%s", ev.Violation("C41", "%s\n--- script (also written to %s; schedule dependent: ./check C41 --replay <that file> re-runs it up to 50 times) ---\n%s\n--- observed ledger ---\n%s\n=> C41 violated: %s",
+		v, p, string(b), out.log, v))
 }
 
 func propC41(t *rapid.T) {
@@ -423,6 +445,7 @@ func propC41(t *rapid.T) {
 			classes = append(classes, s)
 		}
 	}
+	flag(cs.Aligned, "aligned_mode")
 	flag(out.queued > 0, "some_request_queued")
 	flag(out.timeouts > 0, "some_queue_timeout")
 	flag(out.rejected > 0, "some_rejected")
@@ -455,7 +478,7 @@ func TestC41(t *testing.T) {
 	c := ev.For("C41")
 	c.SetRule("a case = one limiter configuration (heavy limit 1-3, heavy queue 0-4, normal limit 1-5, CU threshold, queue timeout 0.3-80 ms set through the verif hook) and 20-200 request scripts " +
 		"(CU and method that decide the bucket incl. CU exactly at the threshold, debug_/trace_ prefixes in mixed case and batch '&' names; arrival offset 0-60 ms; execution time 0-20 ms; caller cancellation 0-43 ms after arrival or never; run returns nil or a unique error), " +
-		"executed by real goroutines under -race. Non-trivial = at least one request went through the heavy queue. Distinct = distinct script.")
+		"executed by real goroutines under -race; a quarter of the cases put arrivals, execution times, cancellations and the queue timeout on a common time grid so that deadlines coincide with permit hand-over. Non-trivial = at least one request went through the heavy queue. Distinct = distinct script.")
 	c.Assume(
 		"the executed function ignores its context and always runs to completion (the oracle compares what the caller received with what that run returned)",
 		"heavy / normal is decided by the documented rule (batch name with '&', CU >= threshold, debug_/trace_ prefix), restated in the harness",
@@ -495,27 +518,40 @@ func TestC41Replay(t *testing.T) {
 }
 
 // TestC41Known_ctx_ends_while_executing is the deterministic witness of the known finding: a heavy
-// request that waited in the queue and is being executed when its queue deadline passes. Its caller
-// is answered "request timeout in queue" although the request is run (once) and its result is lost.
+// request that waited in the queue is being executed (held there by a channel) when its context ends
+// - first by the caller cancelling, then by the queue deadline passing. Its caller is answered with
+// the context error / "request timeout in queue" although the request is run (once) and the run's
+// result is lost. No step of the schedule depends on a sleep: A holds the only permit until B is
+// enqueued, B's run signals its start and then blocks on a gate, the context ends only after that
+// signal, and the gate opens only after B's caller was answered (or, on a limiter that makes the
+// caller wait for the run, after a one-sided wait).
 func TestC41Known_ctx_ends_while_executing(t *testing.T) {
-	var last string
-	for attempt := 0; attempt < 5; attempt++ {
-		verdict, msg := witnessOnce()
-		switch verdict {
-		case "violation":
-			t.Fatalf("%s", ev.Violation("C41", "%s", msg))
-		case "holds":
-			return
+	for _, mode := range []string{"caller-cancel", "queue-deadline"} {
+		last, done := "", false
+		for attempt := 0; attempt < 5 && !done; attempt++ {
+			verdict, msg := witnessOnce(mode)
+			switch verdict {
+			case "violation":
+				t.Fatalf("%s", ev.Violation("C41", "%s", msg))
+			case "holds":
+				done = true
+			default:
+				last = msg
+			}
 		}
-		last = msg
+		if !done {
+			t.Fatalf("%s", ev.HarnessError("witness (%s) could not set up its schedule in 5 attempts: %s", mode, last))
+		}
 	}
-	t.Fatalf("%s", ev.HarnessError("witness could not set up its schedule in 5 attempts: %s", last))
 }
 
-func witnessOnce() (string, string) {
+func witnessOnce(mode string) (string, string) {
 	name := fmt.Sprintf("verif-c41-witness-%d-%d", os.Getpid(), atomic.AddInt64(&limiterSeq, 1))
 	rl := rpcprovider.NewResourceLimiter(true, name, 100, 1, 1, 1)
-	const queueTimeout = 1500 * time.Millisecond
+	queueTimeout := 30 * time.Second // the production value: never fires in caller-cancel mode
+	if mode == "queue-deadline" {
+		queueTimeout = 3 * time.Second
+	}
 	rl.VerifLimiterSetQueueTimeout(rpcprovider.BucketHeavy, queueTimeout)
 	aStarted, aRelease := make(chan struct{}), make(chan struct{})
 	aDone := make(chan error, 1)
@@ -524,7 +560,7 @@ func witnessOnce() (string, string) {
 	}()
 	select {
 	case <-aStarted:
-	case <-time.After(10 * time.Second):
+	case <-time.After(20 * time.Second):
 		close(aRelease)
 		return "retry", "request A did not start"
 	}
@@ -532,47 +568,63 @@ func witnessOnce() (string, string) {
 	bResult := errors.New("result of B's run")
 	var bRuns int32
 	bDone := make(chan error, 1)
+	ctx, cancel := context.WithCancel(context.Background())
+	defer cancel()
 	go func() {
-		bDone <- rl.Acquire(context.Background(), 1000, "debug_b", func() error {
+		bDone <- rl.Acquire(ctx, 1000, "debug_b", func() error {
 			atomic.AddInt32(&bRuns, 1)
 			close(bStarted)
 			select {
 			case <-bGate:
-			case <-time.After(20 * time.Second):
+			case <-time.After(60 * time.Second):
 			}
 			return bResult
 		})
 	}()
-	for i := 0; rl.VerifLimiterQueueLen() == 0 && i < 2000; i++ {
-		time.Sleep(time.Millisecond)
+	// wait until B has been enqueued (the worker takes it out of the channel at once and waits for the permit)
+	enq := false
+	for i := 0; i < 100000 && !enq; i++ {
+		if _, queued, _ := rl.VerifLimiterTotals(); queued > 0 {
+			enq = true
+		} else {
+			time.Sleep(100 * time.Microsecond)
+		}
 	}
-	close(aRelease) // B is dequeued and starts executing, well before its queue deadline
+	close(aRelease) // B gets the permit and starts executing
 	<-aDone
 	select {
 	case <-bStarted:
 	case err := <-bDone:
-		return "retry", fmt.Sprintf("B was answered (%v) before it started", err)
-	case <-time.After(10 * time.Second):
+		return "retry", fmt.Sprintf("B was answered (%v) before it started (enqueued=%v)", err, enq)
+	case <-time.After(20 * time.Second):
 		close(bGate)
 		return "retry", "B did not start"
 	}
-	// B is executing now and stays so until the gate opens. A correct limiter makes B's caller wait for the run.
+	// B is executing now and stays so until the gate opens.
+	wait := 2 * time.Second
+	if mode == "caller-cancel" {
+		cancel()
+	} else {
+		wait += queueTimeout
+	}
+	// A correct limiter makes B's caller wait for the run: nothing arrives on bDone while the gate is closed.
 	select {
 	case err := <-bDone:
 		runs := atomic.LoadInt32(&bRuns)
 		close(bGate)
-		return "violation", fmt.Sprintf("heavy limit 1, queue 1, queue timeout %v: request B waited in the queue, was dequeued and is being executed (runs=%d) when its queue deadline passes; "+
-			"its caller is answered <%v> although the request is run and its run returns <%v> (enqueueRequest selects on queueCtx.Done() while processQueue executes the request)", queueTimeout, runs, err, bResult)
-	case <-time.After(queueTimeout + 1500*time.Millisecond):
+		return "violation", fmt.Sprintf("[%s] heavy limit 1, queue 1, queue timeout %v: request B waited in the queue, was dequeued and is being executed (runs=%d, held by the harness) when its context ends; "+
+			"its caller is answered <%v> although the request is run and its run returns <%v> (resource_limiter.go enqueueRequest: the select on queueCtx.Done() stays armed while processQueue executes the request; "+
+			"RPCProviderServer.Relay then returns that error to the consumer while the closure still runs and finalizes the session)", mode, queueTimeout, runs, err, bResult)
+	case <-time.After(wait):
 	}
 	close(bGate)
 	select {
 	case err := <-bDone:
 		if err != bResult {
-			return "violation", fmt.Sprintf("B's caller received <%v> instead of the run's result <%v>", err, bResult)
+			return "violation", fmt.Sprintf("[%s] B's caller received <%v> instead of the run's result <%v>", mode, err, bResult)
 		}
-	case <-time.After(10 * time.Second):
-		return "violation", "B's caller was not answered within 10 s after B's run had finished"
+	case <-time.After(20 * time.Second):
+		return "violation", fmt.Sprintf("[%s] B's caller was not answered within 20 s after B's run had finished", mode)
 	}
 	rl.VerifLimiterStop()
 	return "holds", ""
